@@ -17,6 +17,10 @@ def adversarial():
                 ["open", 1], ["quiesce"]])
     # shutdown while another handle is still held: completes only when that one goes too
     out.append([["serve"], ["quiesce"], ["cloneconn", 1], ["incall", 1], ["quiesce"], ["shutdown"], ["quiesce"], ["open", 1], ["quiesce"], ["dropclone", 1], ["quiesce"]])
+    # graceful shutdown through two / three handles at once: every one of them completes
+    out.append([["serve"], ["quiesce"], ["cloneconn", 1], ["incall", 1], ["quiesce"], ["shutdown"], ["shutdownclone", 1], ["quiesce"], ["open", 1], ["quiesce"]])
+    out.append([["serve"], ["quiesce"], ["cloneconn", 1], ["cloneconn", 2], ["quiesce"], ["shutdownclone", 2], ["quiesce"], ["shutdown"], ["quiesce"],
+                ["shutdownclone", 1], ["quiesce"]])
     return out
 
 
@@ -54,6 +58,9 @@ def random_steps(rnd):
         for _ in range(pre):
             steps += [["open", 1], ["quiesce"]]
         steps += [["shutdown"], ["quiesce"]]
+        if extra and rnd.random() < 0.5:
+            # the other handle waits in graceful_shutdown() as well
+            steps += [["shutdownclone", 9], ["quiesce"]]
         for _ in range(n - pre):
             steps += [["open", 1]] + ([["quiesce"]] if rnd.random() < 0.7 else [])
         steps.append(["quiesce"])
@@ -69,6 +76,10 @@ def run(pid, tier, replay):
         scen = [json.load(open(replay))["replay"]["scenario"]]
     else:
         r = core.tlc("mc/MC_Lifecycle.tla", "mc/MC_Lifecycle.cfg", workers=4, coverage=True, timeout=900)
+        m = core.tlc("mc/MC_Lifecycle.tla", "mc/MC_Lifecycle_notify_one.cfg", workers=2, timeout=600)
+        if not m.violation or "ShutdownCompletes" not in m.violation:
+            raise core.ToolError("MC_Lifecycle: the notify-one mutant was not rejected (vacuous liveness property)")
+        chk.cov["mutant_models_rejected"] = ["mc/MC_Lifecycle_notify_one.cfg"]
         if r.violation:
             raise core.ToolError("MC_Lifecycle violates its properties:\n" + r.violation[:2000])
         if any(n == 0 for a, n in r.coverage.items() if not a.endswith(("Next", "Init", "Spec"))):
